@@ -177,7 +177,7 @@ fn gen_string(rng: &mut Rng) -> String {
         }
         _ => {
             // long; now and then longer than a u16 can count
-            let n = if rng.chance(1, 50) {
+            let n = if rng.chance(1, 120) {
                 65_530 + rng.below(40) as usize
             } else {
                 200 + rng.below(400) as usize
